@@ -6,7 +6,7 @@ import (
 	"go/types"
 	"strings"
 
-	"golang.org/x/tools/go/ssa"
+	"ikeverif/checker/xt/ssa"
 )
 
 // divisibleBy decides l ≡ 0 (mod m) using the identity X ≡ (X % m): every atom that is the
